@@ -1,6 +1,6 @@
 (* C09 — property theorems.  Nothing but statements, `exact`, Print Assumptions. *)
 From FwdLib Require Import Bytes.
-From G09 Require Import Tables H2Relay Ledger Check Term Obligations PairBasics PairWin PairMisc SizeProofs SizeTol Witness.
+From G09 Require Import Tables H2Relay Ledger Check Term Obligations PairBasics PairWin LedgerFormula PairMisc SizeProofs SizeTol Witness.
 Open Scope N_scope.
 
 (* The split loop of data() terminates for every payload whenever the peer's
@@ -39,6 +39,32 @@ Theorem T09_window_is_ledger :
     forall s, s <> 0 -> win_of (r_flow (toward x p)) s = led_window l s.
 Proof. exact (fun ds es dec enc dr er => window_is_ledger ds es dec enc dr er ob_emit_gate ob_emit_debits ob_settings_delta_not_on_connection). Qed.
 Print Assumptions T09_window_is_ledger.
+
+(* The windows in closed form (RFC 7540 6.9 / 6.9.2): after every non-diverged history, for either side x, the
+   relay's connection window toward x is 65535 + the sum of x's connection WINDOW_UPDATEs - the DATA octets
+   sent to x, and its window for every stream s is x's latest SETTINGS_INITIAL_WINDOW_SIZE (65535 when x sent
+   none) + the sum of x's WINDOW_UPDATEs for s - the DATA octets sent to x on s.  All five sums are functions
+   of the trace alone (what x put on the wire and what the relay put on the wire toward x). *)
+Theorem T09_window_closed_form :
+  forall (dstate estate : Type) dec enc dresize eresize (evs : list event) (d1 : dstate) (e1 : estate) d2 e2 x,
+    hist_wf evs -> all_ok (snd (H2Relay.run dec enc dresize eresize (pair0 dstate estate d1 e1 d2 e2) evs)) ->
+    let p := fst (H2Relay.run dec enc dresize eresize (pair0 dstate estate d1 e1 d2 e2) evs) in
+    let tr := snd (H2Relay.run dec enc dresize eresize (pair0 dstate estate d1 e1 d2 e2) evs) in
+    f_conn (r_flow (toward x p)) = (Z.of_N default_initial_window + sum_conn_grants x tr - sum_data x tr)%Z /\
+    forall s, s <> 0 ->
+      win_of (r_flow (toward x p)) s =
+      (latest_init x (Z.of_N default_initial_window) tr + sum_grants_on x s tr - sum_data_on x s tr)%Z.
+Proof. exact (fun ds es dec enc dr er => relay_window_closed_form ds es dec enc dr er ob_emit_gate ob_emit_debits ob_settings_delta_not_on_connection). Qed.
+Print Assumptions T09_window_closed_form.
+
+(* Non-vacuity of the closed form: on the example history (window 8 below) the terms are 3 + 30 - 25. *)
+Example T09_window_closed_form_example :
+  latest_init Sv (Z.of_N default_initial_window) (snd (H2Relay.run unit_dec unit_enc unit_res unit_res (pair0 unit unit tt tt tt tt) example_hist)) = 3%Z /\
+  sum_grants_on Sv 1 (snd (H2Relay.run unit_dec unit_enc unit_res unit_res (pair0 unit unit tt tt tt tt) example_hist)) = 30%Z /\
+  sum_data_on Sv 1 (snd (H2Relay.run unit_dec unit_enc unit_res unit_res (pair0 unit unit tt tt tt tt) example_hist)) = 25%Z /\
+  sum_conn_grants Sv (snd (H2Relay.run unit_dec unit_enc unit_res unit_res (pair0 unit unit tt tt tt tt) example_hist)) = 1%Z /\
+  sum_data Sv (snd (H2Relay.run unit_dec unit_enc unit_res unit_res (pair0 unit unit tt tt tt tt) example_hist)) = 25%Z.
+Proof. exact example_formula. Qed.
 
 (* Every flow-controlled octet accepted from a sender (frame payload length: data, pad length octet and
    padding) is credited back to it in the same step, on the stream and on the connection, and no other
